@@ -16,7 +16,9 @@ from threading import Thread as _Thread  # bound now: the environment stubs patc
 from .core import Infeasible, Signal
 from .interp import Interp
 
-REPO_PREFIX = "/repo/mysensors/"
+import os as _os
+
+REPO_PREFIX = _os.environ.get("VERIF_REPO", "/repo") + "/mysensors/"
 
 
 class SchedLock:
